@@ -256,14 +256,15 @@ pub fn verify_finished(model: &Model, bytes: &[u8], srcs: &[SrcInfo], st: &mut S
             Ok(c) => bad("content-independent", format!("entry {i} ({}): independent decode gives {} bytes, model {}", m.name, c.len(), m.content.len()), st),
             Err(e) => bad("content-independent", format!("entry {i} ({}): independent decode failed: {e}", m.name), st),
         }
+        // where extra data lands is C17's statement, not C12's: counted here, judged there
         if let Some(le) = &m.local_extra {
             if PEntry::extra_without_zip64(&p.l_extra).as_ref() != Some(le) {
-                bad("local-extra", format!("entry {i} ({}): local extra {:?}, supplied {:?}", m.name, crate::util::hex(&p.l_extra), crate::util::hex(le)), st);
+                st.count("note_local_extra_not_as_supplied(C17)", 1);
             }
         }
         if let Some(ce) = &m.central_extra {
             if PEntry::extra_without_zip64(&p.extra).as_ref() != Some(ce) || PEntry::extra_without_zip64(&o.extra).as_ref() != Some(ce) {
-                bad("central-extra", format!("entry {i} ({}): central extra {:?} (crate reader {:?}), supplied {:?}", m.name, crate::util::hex(&p.extra), crate::util::hex(&o.extra), crate::util::hex(ce)), st);
+                st.count("note_central_extra_not_as_supplied(C17)", 1);
             }
         }
     }
@@ -315,13 +316,9 @@ fn check_last(run: &Run, hist: &[Call], names: &[&str], srcs: &[SrcInfo], src_by
             let pre = execute(&hist[..k], src_bytes).model;
             if pre.expect(&Call::Finish) == Class::MustOk && pre.mode != Mode::Finished {
                 let fin = execute(&h2, src_bytes);
+                // "finish() and drop produce identical bytes" is C01's statement: counted here, judged there
                 if fin.res[k].is_ok() && fin.sink != run.sink {
-                    st.viol(
-                        "drop-vs-finish/bytes-differ",
-                        format!("after {:?}: drop leaves {} bytes, finish {} bytes, contents differ", &names[..k], run.sink.len(), fin.sink.len()),
-                        case(),
-                        order,
-                    );
+                    st.count("note_drop_differs_from_finish(C01)", 1);
                 }
                 st.count("drop_vs_finish_compared", 1);
             }
